@@ -219,6 +219,8 @@ def run_tunnel(tag, cfg, seed, plan):
     if cfg.get("pred"):
         t.pred = predecessor(sim, random.Random(cfg["rseed"] ^ 0x5EED))
     prof0 = fault_profile(dict(cfg, fault=None), rng, 0, 0)
+    if cfg.get("probe_blackhole"):
+        prof0["drop_probe_answers"] = True
     if cfg.get("slow_start"):
         # a slow but otherwise perfect path while the client starts up: every step of the handshake succeeds, late
         prof0["base_latency"] = cfg["slow_start"]
